@@ -12,6 +12,7 @@ import (
 	"strings"
 
 	"golang.org/x/tools/go/packages"
+	"golang.org/x/tools/go/ssa"
 )
 
 func init() { register("C20", ruleC20) }
@@ -189,6 +190,7 @@ func ruleC20(w *World) {
 	}
 	// R3: build-tagged siblings in package hash
 	w.ruleSiblings("C20.R3", repo)
+	w.ruleXorLanes("C20.R3", repo)
 }
 
 func isTestHelperDecl(fd *ast.FuncDecl) bool {
@@ -354,6 +356,85 @@ func (w *World) ruleSiblings(rule, repo string) {
 		sort.Strings(diffs)
 		w.check(len(diffs) == 0, rule, "siblings/symbols@"+cfg, token.NoPos, fmt.Sprintf("variant files declare the same %d symbols with the same signatures (files %v vs %v)", len(base), bfiles, ofiles), "build-tagged variants disagree on symbols/signatures: "+strings.Join(diffs, "; "))
 	}
+}
+
+// ruleXorLanes: the generic absorb helper xors exactly len(buf)/8 lanes of the caller's block (it is
+// handed the caller's own slice on the fast path, so touching more reads past the block), and the
+// unrolled variant touches lanes 13..16 only when the block is at least 136 bytes.
+func (w *World) ruleXorLanes(rule, repo string) {
+	for _, cfg := range []string{"purego", "default"} {
+		wd, err := load(LoadCfg{Name: cfg, Dir: repo, Env: mustCfg(cfg, repo).Env, Flags: mustCfg(cfg, repo).Flags, Pats: []string{"./hash"}})
+		if err != nil {
+			w.undecided(rule, "xorIn@"+cfg, token.NoPos, err.Error())
+			continue
+		}
+		wd.out = w.out
+		fn := wd.fn(hashPath, "xorIn")
+		if fn == nil {
+			w.undecided(rule, "xorIn@"+cfg, token.NoPos, "unresolved anchor: xorIn")
+			continue
+		}
+		buf := P(fn, 1)
+		file := filepath.Base(wd.Fset.Position(fn.Pos()).Filename)
+		n := 0
+		bad := ""
+		instrs(fn, func(ins ssa.Instruction) {
+			st, ok := ins.(*ssa.Store)
+			if !ok {
+				return
+			}
+			ia, ok := st.Addr.(*ssa.IndexAddr)
+			if !ok || !strings.HasSuffix(render(ia.X), ".a") {
+				return
+			}
+			n++
+			if c, isC := constOf(ia.Index); isC {
+				k, _ := constInt64(c.Value)
+				// unrolled variant: lane k needs 8(k+1) bytes; lanes ≥ 13 only under the length guard
+				if k >= 13 {
+					lo, _, okb := wd.intBound(lenOfParam(fn, 1), st)
+					_ = lo
+					guarded := false
+					for _, f := range wd.factsAt(st) {
+						if strings.Contains(f.Expr, "len("+buf+") >= 136") {
+							guarded = true
+						}
+					}
+					if !(guarded || okb && lo >= 8*(k+1)) && bad == "" {
+						bad = fmt.Sprintf("lane %d is xored without the block being known to hold %d bytes", k, 8*(k+1))
+					}
+				}
+				return
+			}
+			// loop variant: the induction variable runs over exactly len(buf)/8 lanes of the parameter
+			okLoop := false
+			if ph, isPhi := ia.Index.(*ssa.Phi); isPhi {
+				if b, isLoop := countedLoop(ph); isLoop && render(b) == "(len("+buf+") / 8)" {
+					okLoop = true
+				}
+			}
+			if !okLoop && bad == "" {
+				bad = "the number of lanes xored is not len(" + buf + ")/8 of the block passed in (index `" + render(ia.Index) + "`)"
+			}
+		})
+		w.out.Notes = append(w.out.Notes, "xorIn@"+cfg+" analysed at "+wd.pos(fn.Pos()))
+		w.check(bad == "" && n > 0, rule, "xorIn@"+cfg+"/"+file+"/lanes", token.NoPos, fmt.Sprintf("%s xors only the lanes covered by the block it is given (%d lane stores)", file, n), file+": "+bad+" — the variants would absorb different data for the 104-byte rate")
+	}
+}
+
+func lenOfParam(fn *ssa.Function, i int) ssa.Value {
+	var out ssa.Value
+	instrs(fn, func(ins ssa.Instruction) {
+		if c, ok := ins.(*ssa.Call); ok {
+			if b, ok := c.Call.Value.(*ssa.Builtin); ok && b.Name() == "len" && c.Call.Args[0] == ssa.Value(fn.Params[i]) && out == nil {
+				out = c
+			}
+		}
+	})
+	if out == nil {
+		return fn.Params[i]
+	}
+	return out
 }
 
 func sizeOf(t types.Type) int64 {
